@@ -33,7 +33,7 @@ def entry(e):
     return [route, e.key, e.mask, src]
 
 
-def system_info(machine):
+def system_info(machine, core_res=None):
     from rig.machine_control.machine_controller import SystemInfo, ChipInfo
     from rig.machine_control.consts import AppState
     from rig.place_and_route.machine import Cores, SDRAM, SRAM
@@ -41,7 +41,7 @@ def system_info(machine):
     chips = {}
     for (x, y) in machine:
         res = machine[(x, y)]
-        n = res[Cores]
+        n = res[core_res if core_res is not None else Cores]
         chips[(x, y)] = ChipInfo(
             num_cores=n, core_states=[AppState.run] + [AppState.idle] * (n - 1) if n else [],
             working_links=set(l for l in Links if (x, y, l) in machine),
@@ -59,6 +59,18 @@ def run_case(c):
     from rig.routing_table import remove_default_routes, ordered_covering
     from rig.place_and_route.wrapper import wrapper as w_wrapper, place_and_route_wrapper as w_pnr
     machine, vres, nets, cons, net_keys = pnr_gen.build(c["problem"])
+    core_res = Cores
+    if c.get("custom_cores"):
+        # the caller names its core resource itself: every stage must use the name it is given
+        core_res = "my-cores"
+        ren = lambda d: type(d)((core_res if k is Cores else k, v) for k, v in d.items())
+        vres = type(vres)((v, ren(r)) for v, r in vres.items())
+        machine.chip_resources = ren(machine.chip_resources)
+        machine.chip_resource_exceptions = type(machine.chip_resource_exceptions)(
+            (xy, ren(r)) for xy, r in machine.chip_resource_exceptions.items())
+        for k in cons:
+            if isinstance(k, ReserveResourceConstraint) and k.resource is Cores:
+                k.resource = core_res
     random.seed(c["seed"])
     pf, kw = placer(c["placer"])
     if "random" in kw:
@@ -72,7 +84,7 @@ def run_case(c):
             stage = "allocate"
             al = allocate(vres, nets, machine, cons, pl)
             stage = "route"
-            rt = route(vres, nets, machine, cons, pl, al, radius=c["radius"])
+            rt = route(vres, nets, machine, cons, pl, al, core_res, radius=c["radius"])
             stage = "tables"
             tb = routing_tree_to_tables(rt, net_keys)
             stage = "minimise"
@@ -84,20 +96,23 @@ def run_case(c):
             stage = "wrapper"
             apps = {v: "app" for v in vres}
             pl, al, _, tables = w_wrapper(vres, apps, nets, net_keys, machine, cons, place=pf, place_kwargs=kw,
-                                          route_kwargs={"radius": c["radius"]})
+                                          route_kwargs={"radius": c["radius"]}, core_resource=core_res)
         else:
             stage = "place_and_route_wrapper"
             apps = {v: "app" for v in vres}
             # the SystemInfo describes the same machine; monitor cores are busy, which the wrapper reserves
-            si = system_info(machine)
+            si = system_info(machine, core_res)
             cons2 = [k for k in cons if not (isinstance(k, ReserveResourceConstraint))]
             pl, al, _, tables = w_pnr(
                 vres, apps, nets, net_keys, si, cons2, place=pf, place_kwargs=kw,
-                route_kwargs={"radius": c["radius"]}, minimise_tables_methods=methods or (remove_default_routes.minimise,))
+                route_kwargs={"radius": c["radius"]}, minimise_tables_methods=methods or (remove_default_routes.minimise,),
+                core_resource=core_res)
     except Exception as e:
         name = type(e).__name__
         return dict(status="raised", exc=name, stage=stage, documented=name in DOCUMENTED, msg=str(e)[:200])
-    endpoint = {k.vertex: int(k.route) for k in cons if isinstance(k, RouteEndpointConstraint)}
+    # what the caller asked for, taken from the problem description itself (not from the constraint objects
+    # handed to the library, which a defective stage might have altered)
+    endpoint = {k[1]: int(k[2]) for k in c["problem"]["constraints"] if k[0] == "endpoint"}
     out_nets = []
     for n in nets:
         key, mask = net_keys[n]
@@ -107,7 +122,7 @@ def run_case(c):
             if s in endpoint:
                 links.add((x, y, endpoint[s]))
             else:
-                sl = al.get(s, {}).get(Cores)
+                sl = al.get(s, {}).get(core_res)
                 if sl is not None:
                     for core in range(sl.start, sl.stop):
                         cores.add((x, y, core))
